@@ -1,13 +1,16 @@
 import LocustModel.Proto
 import LocustModel.Conc.SchedDb
 import LocustModel.Conc.LockOrder
+import LocustModel.Conc.WalGate
 /-
   Driver for C11.  Input lines (harness/src/bin/c11.rs):
     seq n=<N> hist=<req,…|[]> req=<req> obs=<out>|<workers>|<flush>|<canary>
     par n=<N> hist=<req,…|[]> reqs=<req,…> obs=<out;out;…>|<workers>|<flush>|<canary>
-    locks <file>:<fn> <field,field,…>
+    locks <file>:<fn> <field,field,…> <held>acquired[@callee],…|[]>
+    gate max=<limit> size=<accounted bytes before> add=<accounted bytes of the call> obs=<ok|hang|panic>|<accounted after>
+    stress n=<N> readers=<k> rounds=<r> queries=<q> obs=<worst out>|<workers>|<flush>|<canary>
     open k=<wal files> bad=<damaged wal files> out=<ok|panic|hang>
-  <req> = q.<d|e|f…> | qv.<kind> | qn.<parts>.<m>.<c> | t.<d|f> | st | mt | in | fl.<k1>.<f1>.<k2>.<f2>.<tf> | cl.<wal|tab>
+  <req> = q.<d|e|f…> | qp.<d|e|f…>.<d|e|f>.<kind> | qv.<kind> | qn.<parts>.<m>.<c> | t.<d|f> | st | mt | in | fl.<k1>.<f1>.<k2>.<f2>.<tf> | cl.<wal|tab>
   Output:  <model> TAB <spec>
     model = what the scheduler model (Cfg.current) predicts, in the text of the implementation output
             `<out> w=<workers> flush=<out> canary=<out>`
@@ -23,6 +26,10 @@ def parseReq (s : String) : Option Req :=
   match s.splitOn "." with
   | ["q", outs] => (outs.toList.mapM parseOut).map Req.query
   | ["qv", kind] => some (.queryErr kind)
+  | ["qp", outs, fin, kind] => do
+      let bodies ← outs.toList.mapM parseOut
+      let fin ← match fin.toList with | [c] => parseOut c | _ => none
+      pure (.queryPhase bodies fin kind)
   | ["qn", p, m, c] => do
       let p ← p.toNat?
       let m ← m.toNat?
@@ -95,14 +102,50 @@ def stepPar (toks : List String) : Option String := do
       pure (showObs (";".intercalate (mouts.map Ret.toString)) mobs ++ "\t" ++ judge n hist reqs outs o)
   | _ => none
 
+/-- one ingestion call against the log-size gate (comparisons as found in the source) -/
+def stepGate (toks : List String) : Option String := do
+  let max ← (← field "max" toks).toNat?
+  let size ← (← field "size" toks).toNat?
+  let add ← (← field "add" toks).toNat?
+  match (← field "obs" toks).splitOn "|" with
+  | [out, _after] =>
+      let (ret, after) := LM.WalGate.ingestCall max size add
+      let model := if ret then "ok after=" ++ toString after else "hang after=" ++ toString after
+      let spec := if out = "ok" then "OK" else if out = "hang" then "BAD ingestion did not return" else "BAD panic in the caller"
+      pure (model ++ "\t" ++ spec)
+  | _ => none
+
+/-- `rounds` × (ingest, force_flush) by one client while `readers` clients issued `queries` valid queries on the same table:
+    every request is fault-free, the model answers all of them `ok` (under `Cfg.current` the outcome does not depend on
+    the schedule) -/
+def stepStress (toks : List String) : Option String := do
+  let n ← (← field "n" toks).toNat?
+  let _readers ← (← field "readers" toks).toNat?
+  let rounds ← (← field "rounds" toks).toNat?
+  let queries ← (← field "queries" toks).toNat?
+  match (← field "obs" toks).splitOn "|" with
+  | [out, w, fl, c] =>
+      -- the model's state after fault-free requests does not depend on how many there were beyond a few; cap the replay
+      let reqs := (List.replicate (min rounds 8) [Req.ingest, Req.flush 1 0 0 0 0]).flatten ++ List.replicate (min queries 16) (Req.query [.done, .done])
+      let (d, worst) := reqs.foldl (fun (acc : Db × Ret) r => let (d, o) := acc.1.request .current r; (d, if acc.2 = .ok then o else acc.2))
+        (Db.init n, Ret.ok)
+      let (_, mobs) := d.observe .current
+      let o : Obs := { workers := (← w.toNat?), flush := (← parseRet fl), canary := (← parseRet c) }
+      let out ← parseRet out
+      pure (showObs worst.toString mobs ++ "\t" ++ judge n [] [Req.query [.done]] [out] o)
+  | _ => none
+
 def step (line : String) : String :=
   match splitTokens line with
   | "seq" :: toks => (stepSeq toks).getD "bad-op\tbad-op"
   | "par" :: toks => (stepPar toks).getD "bad-op\tbad-op"
-  | ["locks", key, fields] =>
-      match parseList some fields with
-      | some fs => LM.LockOrder.judgeSite key fs ++ "\tOK"
-      | none => "bad-op\tbad-op"
+  | ["locks", key, fields, pairs] =>
+      -- model: the acquisition sites the lock order was read from; spec: every held → acquired pair goes up in `rank`
+      match parseList some fields, parseList some pairs with
+      | some fs, some ps => LM.LockOrder.judgeSite key fs ++ "\t" ++ LM.LockOrder.judgePairs key ps
+      | _, _ => "bad-op\tbad-op"
+  | "gate" :: toks => (stepGate toks).getD "bad-op\tbad-op"
+  | "stress" :: toks => (stepStress toks).getD "bad-op\tbad-op"
   | "open" :: toks =>
       match (field "k" toks).bind String.toNat?, (field "bad" toks).bind String.toNat?, field "out" toks with
       | some k, some bad, some out =>
